@@ -1,6 +1,6 @@
 SPECIFICATION Spec
 CONSTANTS
-  N = 3
+  N = 2
   K = 2
   MaxLen = 2
   W = 2
